@@ -52,6 +52,35 @@ class Rnd:
         return 0.5
 
 
+# regex terminals are instantiated by the third-party generator exrex (its own use of `random` cannot be
+# steered): it is replaced by a stub that picks, with a symbolic draw, among ALL strings exrex itself
+# enumerates for the pattern (computed natively at import; finite patterns only)
+import exrex as _real_exrex
+
+REGEX_INSTANCES = {}
+
+
+def _collect_patterns(node):
+    if isinstance(node, TerminalNode) and node.symbol.is_regex:
+        v = node.symbol.value()
+        pat = v.to_string("latin-1") if isinstance(v._value, bytes) else str(v)
+        REGEX_INSTANCES[pat] = sorted(set(_real_exrex.generate(pat)))[:12]
+    for c in node.children():
+        _collect_patterns(c)
+
+
+for _r in G.rules.values():
+    _collect_patterns(_r)
+
+
+class StubExrex:
+    def __init__(self, rnd):
+        self.rnd = rnd
+
+    def getone(self, pattern):
+        return self.rnd.choice(REGEX_INSTANCES[pattern])
+
+
 def fuzz_with(choices, max_nodes, start=START):
     # case split on the budget: the engine explores one concrete budget per path (mixing a symbolic
     # int into the float arithmetic of distance_to_completion makes every solver query non-linear)
@@ -60,12 +89,13 @@ def fuzz_with(choices, max_nodes, start=START):
             max_nodes = BUDGETS[i]
             break
     r = Rnd(choices)
-    saved = (A.random, R.random, TT.random)
+    saved = (A.random, R.random, TT.random, TT.exrex)
     A.random = R.random = TT.random = r
+    TT.exrex = StubExrex(r)
     try:
         t = G.fuzz(start, max_nodes)
     finally:
-        A.random, R.random, TT.random = saved
+        A.random, R.random, TT.random, TT.exrex = saved
     if r.i != len(choices):
         raise IgnoreAttempt("unused choices")  # canonical form: one path per draw sequence
     return t
@@ -106,6 +136,21 @@ def roundtrip(choices: List[int], max_nodes: int) -> bool:
     return any(text_of(b) == w and valid(G, b) for b in back) and member(G, w, START)
 
 
+def roundtrip_bytes(choices: List[int], max_nodes: int) -> bool:
+    """
+    pre: len(choices) <= NCH and 0 <= max_nodes < NB
+    post: _
+    """
+    # the same round trip for grammars that serialise to bytes (bytes regex terminals instantiated >= 0x80)
+    exclude_known("roundtrip_bytes", choices=choices, max_nodes=max_nodes, SPEC=SPEC)
+    t = fuzz_with(choices, max_nodes)
+    if not valid(G, t):
+        return False
+    w = t.to_bytes()
+    back = iter_forest(G, w, START)
+    return any(b.to_bytes() == w for b in back)  # leaves of a parse of bytes input are bytes slices: compare serialisations
+
+
 def reach(choices: List[int], max_nodes: int) -> bool:
     """
     pre: len(choices) <= NCH and 0 <= max_nodes < NB
@@ -141,12 +186,14 @@ def _record(seed, max_nodes):
         def random(self):
             return 0.5
 
-    saved = (A.random, R.random, TT.random)
-    A.random = R.random = TT.random = Rec()
+    saved = (A.random, R.random, TT.random, TT.exrex)
+    rec = Rec()
+    A.random = R.random = TT.random = rec
+    TT.exrex = StubExrex(rec)
     try:
         G.fuzz(START, max_nodes)
     finally:
-        A.random, R.random, TT.random = saved
+        A.random, R.random, TT.random, TT.exrex = saved
     return seq
 
 
